@@ -333,7 +333,7 @@ func runC15(w *core.W) {
 	// accepted side: programs with random layout (line breaks included), corpus, token sequences
 	cfg := gen.FullSyntax()
 	r := w.RNG("prog")
-	for i, n := 0, w.Pick(12000, 200000); i < n; i++ {
+	for i, n := 0, w.Pick(36000, 600000); i < n; i++ {
 		f := ref.Flatten(ref.Parenthesize(cfg.Node(r, 2+r.Intn(6))))
 		run("prog", []byte(ref.JoinLexemes(f.Lex, gen.Layout(r, f, r.Intn(4)))))
 	}
@@ -359,7 +359,7 @@ func runC15(w *core.W) {
 	// rejected side with line breaks in front of and inside the error
 	r = w.RNG("reject")
 	corpus := gen.CorpusBytes()
-	for i, n := 0, w.Pick(15000, 250000); i < n; i++ {
+	for i, n := 0, w.Pick(45000, 750000); i < n; i++ {
 		switch i % 3 {
 		case 0:
 			run("mutant", gen.Mutate(r, corpus[r.Intn(len(corpus))], corpus))
@@ -422,7 +422,7 @@ func runC15(w *core.W) {
 	}
 	w.ExhaustivePart(fmt.Sprintf("line table: all texts of <= %d symbols over {a, e-acute, LF, CR, U+2028, U+2029, U+0085}, every offset", lmax))
 	r = w.RNG("lines")
-	for i, n := 0, w.Pick(3000, 40000); i < n; i++ {
+	for i, n := 0, w.Pick(9000, 120000); i < n; i++ {
 		var sb strings.Builder
 		for j, m := 0, r.Intn(60); j < m; j++ {
 			if r.Intn(3) == 0 {
